@@ -73,12 +73,40 @@ def gen_enum(rng, name):
 def docs_of(rng):
     return [a_doc(' enum doc')] if rng.random() < 0.2 else []
 
+def render_enum(rng, d):
+    """concrete syntax of an enum definition, integers spelled in a random base (they may exceed isize here)"""
+    def num(v):
+        neg = v < 0
+        a = abs(v)
+        r = rng.random()
+        s_ = ('0x%X' % a) if r < 0.4 else (('0x%x' % a) if r < 0.5 else (('0b%s' % bin(a)[2:]) if r < 0.55 and a < 4096 else str(a)))
+        if r > 0.8 and len(s_) > 4 and not s_.startswith('0b'):
+            s_ = s_[:3] + '_' + s_[3:]
+        return ('-' if neg else '') + s_
+    at = ''.join('#[%s] ' % a[1] for a in d[3][2][1:] if tag(a) == 'ai')
+    body = []
+    for st in d[3][3:]:
+        mk = ''.join('#[default] ' for a in st[3][1:] if tag(a) == 'ai' and a[1] == 'default')
+        e = opt(st[2])
+        body.append('%s%s%s' % (mk, st[1], '' if e is None else ' = ' + num(e[1])))
+    return '%s%senum %s: %s { %s }' % (at, 'pub ' if d[1] == 'pub' else '', d[2], d[3][1][1], ', '.join(body))
+
 def generate(rng, tier):
     n = 400 if tier == 'quick' else 8000
     out = []
     for i in range(n):
         defs = [gen_enum(rng, 'E%d' % k) for k in range(rng.choice([1, 1, 2, 3]))]
         out.append(case('e%d' % i, rng.choice([4, 8]), [modent(path('m'), module(defs=defs))]))
+    # the same through concrete syntax, where a literal can also lie outside isize
+    for i in range(n // 3):
+        d = gen_enum(rng, 'E0')
+        stmts = d[3][3:]
+        if stmts and rng.random() < 0.5:
+            k = rng.randrange(len(stmts))
+            big = rng.choice([2 ** 63, 2 ** 63 + 1, 2 ** 64 - 1, 2 ** 64, 0xFFFF_FFFF_FFFF_FFFF, 0x8000_0000_0000_0000, -2 ** 63 - 1])
+            d = d[:3] + [d[3][:3] + stmts[:k] + [[stmts[k][0], stmts[k][1], mkopt(e_int(big)), stmts[k][3]]] + stmts[k + 1:]]
+        c = case('t%d' % i, rng.choice([4, 8]), [tmodule('m.pyxis', render_enum(rng, d))], extras=[[S('enumspec'), d]])
+        out.append(c)
     o = gen.Opts(p_enum=0.6, max_modules=2, max_items=5, p_backend=0.0, p_impl=0.1)
     out += std_worlds(rng, n // 5, o)
     return out
@@ -101,11 +129,18 @@ def judge(c, impl, model):
     count(info, 'impl-' + cls)
     must_reject = None
     enums = []
-    for (mp, file, m) in modules_of(c):
-        for d in m_defs(m):
+    all_defs = [(mp, d) for (mp, file, m) in modules_of(c) for d in m_defs(m)]
+    spec = find(c, 'enumspec')
+    if spec is not None:
+        all_defs = [(['m'], spec[1])]
+    for (mp, d) in all_defs:
             if def_is_type(d):
                 continue
             enums.append((mp, d))
+            for st in enum_stmts(d):
+                e = opt(st[2])
+                if e is not None and tag(e) == 'int' and not (IMIN <= e[1] <= IMAX):
+                    must_reject = must_reject or 'literal-outside-isize'
             base = enum_base(d)
             stmts = enum_stmts(d)
             bname = base[1] if tag(base) == 'id' else None
